@@ -401,6 +401,65 @@ func Run(r *ev.Run) {
 		}
 	}
 
+	// ---- 3b'. lists of EXACTLY 65534 / 65535 bytes (the largest there is) must encode, 65536 must be an error: one config with a
+	// long public key, alone and after two small ones ----
+	{
+		small := mk(8, "a.bc", sl[0])
+		sized := func(total int) ech.Config {
+			spec := ech.ConfigSpec{Version: 0xfe0d, ID: 77, KEM: 0x20, PublicKey: tlsref.DetBytes("longkey", 100), CipherSuites: sl[0], PublicName: []byte("size.example")}
+			c0, _ := spec.Bytes()
+			spec.PublicKey = tlsref.DetBytes("longkey", 100+total-len(c0))
+			c, err := spec.Bytes()
+			if err != nil || len(c) != total {
+				ev.ToolError("c11: cannot build a config of %d bytes (%d, %v)", total, len(c), err)
+			}
+			return c
+		}
+		for _, total := range []int{65534, 65535, 65536} {
+			for _, lead := range []int{0, 2} {
+				var cfgs []ech.Config
+				for i := 0; i < lead; i++ {
+					cfgs = append(cfgs, small)
+				}
+				cfgs = append(cfgs, sized(total-lead*len(small)))
+				var body []byte
+				for _, c := range cfgs {
+					body = append(body, c...)
+				}
+				got, err := ech.ConfigList(cfgs)
+				oc := "ok-list"
+				switch {
+				case total <= 65535 && (err != nil || !bytes.Equal(got, append([]byte{byte(total >> 8), byte(total)}, body...))):
+					oc = "exact-size-list-refused"
+					r.Violation("list-bytes:exact-size", fmt.Sprintf("ConfigList of %d configs totalling exactly %d bytes (legal: the limit is 65535): err=%v, %d bytes returned", len(cfgs), total, err, len(got)), total)
+				case total > 65535 && err == nil:
+					oc = "overflow-not-reported"
+					r.Violation("list-overflow-not-reported", fmt.Sprintf("ConfigList of configs totalling %d bytes returned %d bytes and no error", total, len(got)), total)
+				case total > 65535:
+					oc = "rejected-length"
+				}
+				r.Eval(fmt.Sprint("exactlist", total, lead), oc)
+			}
+		}
+	}
+
+	// ---- 3c. what ConfigList returned belongs to the caller: writing into it changes no later result (empty list included) ----
+	for _, cfgs := range [][]ech.Config{nil, {}, {mk(9, "a.example", sl[0])}, {mk(9, "a.example", sl[0]), mk(10, "b.example", sl[1])}} {
+		first, err := ech.ConfigList(cfgs)
+		want := slices.Clone(first)
+		for i := range first {
+			first[i] ^= 0x45
+		}
+		_ = append(first[:0], 0x45, 0x45) // (also within the capacity of a 2-byte result)
+		second, err2 := ech.ConfigList(cfgs)
+		oc := "list-fresh"
+		if err != nil || err2 != nil || !bytes.Equal(second, want) {
+			oc = "list-shared"
+			r.Violation("list-output-shared", fmt.Sprintf("after the caller wrote into the list returned for %d configs, the next ConfigList of the same input returns %x (want %x) %v %v", len(cfgs), second, want, err, err2), len(cfgs))
+		}
+		r.Eval(fmt.Sprint("listshared", len(cfgs), cfgs == nil), oc)
+	}
+
 	// ---- 3a'. parsing is a function of the bytes given NOW: a config parsed from a buffer that is afterwards reused for another
 	// config must not influence a later parse of an equal config held elsewhere; and what Bytes/NewConfig returned earlier stays
 	// intact when more configs are produced (configs of every size 490..530 bytes, which needs long keys) ----
